@@ -20,8 +20,8 @@ use serde_json::{Value, json};
 use crate::common::*;
 
 pub const MSCHEMA: &str = r#"
-CREATE TABLE IF NOT EXISTS ma (id INTEGER NOT NULL PRIMARY KEY, x INTEGER NOT NULL DEFAULT 0);
-CREATE TABLE IF NOT EXISTS mb (id INTEGER NOT NULL PRIMARY KEY, aid INTEGER NOT NULL DEFAULT 0, y INTEGER NOT NULL DEFAULT 0);
+CREATE TABLE IF NOT EXISTS ma (id INTEGER NOT NULL PRIMARY KEY, x INTEGER);
+CREATE TABLE IF NOT EXISTS mb (id INTEGER NOT NULL PRIMARY KEY, aid INTEGER NOT NULL DEFAULT 0, y INTEGER);
 "#;
 
 pub fn query_of(kind: &str) -> &'static str {
@@ -46,12 +46,16 @@ fn vjson(v: &SqliteValue) -> Value {
 
 fn rand_stmt(rng: &mut SmallRng, nk: i64) -> Statement {
     let k = rng.random_range(1..=nk);
-    let v = rng.random_range(1..=3i64);
+    // a third of the written values are NULL
+    let v = match rng.random_range(0..=4i64) {
+        0 | 4 => SqliteParam::Null,
+        n => SqliteParam::Integer(n),
+    };
     match rng.random_range(0..8) {
-        0 | 1 => Statement::WithParams("INSERT INTO ma (id, x) VALUES (?, ?) ON CONFLICT (id) DO UPDATE SET x = excluded.x".into(), vec![SqliteParam::Integer(k), SqliteParam::Integer(v)]),
+        0 | 1 => Statement::WithParams("INSERT INTO ma (id, x) VALUES (?, ?) ON CONFLICT (id) DO UPDATE SET x = excluded.x".into(), vec![SqliteParam::Integer(k), v.clone()]),
         2 => Statement::WithParams("DELETE FROM ma WHERE id = ?".into(), vec![SqliteParam::Integer(k)]),
-        3 => Statement::WithParams("UPDATE ma SET x = ? WHERE id = ?".into(), vec![SqliteParam::Integer(v), SqliteParam::Integer(k)]),
-        4 | 5 => Statement::WithParams("INSERT INTO mb (id, aid, y) VALUES (?, ?, ?) ON CONFLICT (id) DO UPDATE SET aid = excluded.aid, y = excluded.y".into(), vec![SqliteParam::Integer(k), SqliteParam::Integer(rng.random_range(1..=nk)), SqliteParam::Integer(v)]),
+        3 => Statement::WithParams("UPDATE ma SET x = ? WHERE id = ?".into(), vec![v.clone(), SqliteParam::Integer(k)]),
+        4 | 5 => Statement::WithParams("INSERT INTO mb (id, aid, y) VALUES (?, ?, ?) ON CONFLICT (id) DO UPDATE SET aid = excluded.aid, y = excluded.y".into(), vec![SqliteParam::Integer(k), SqliteParam::Integer(rng.random_range(1..=nk)), v.clone()]),
         6 => Statement::WithParams("DELETE FROM mb WHERE id = ?".into(), vec![SqliteParam::Integer(k)]),
         _ => Statement::WithParams("UPDATE mb SET aid = ? WHERE id = ?".into(), vec![SqliteParam::Integer(rng.random_range(1..=nk)), SqliteParam::Integer(k)]),
     }
